@@ -65,6 +65,7 @@ Section History.
   Variable parse : str -> res V.
   Variable format : V -> str.
   Variable dom : V -> bool.
+  Variable pf : bool.
   Hypothesis roundtrip : forall v, dom v = true -> parse (format v) = Ok v.
 
   Definition coherent (t : tok V) : Prop := parse (t_raw t) = Ok (t_val t).
@@ -81,17 +82,17 @@ Section History.
   Qed.
   Lemma sv_from_raw_text_accepts s v : parse s = Ok v -> sv_from_raw_text parse s = Ok (mk_tok s v).
   Proof. unfold sv_from_raw_text. intros ->. reflexivity. Qed.
-  Lemma sv_step_coherent t o : op_ok o -> coherent (fst (sv_step parse format t o)) /\ snd (sv_step parse format t o) = Ok tt.
+  Lemma sv_step_coherent t o : op_ok o -> coherent (fst (sv_step parse format pf t o)) /\ snd (sv_step parse format pf t o) = Ok tt.
   Proof.
     destruct o as [s|v]; cbn [op_ok sv_step].
     - intros [v Hv]. rewrite Hv. cbn. unfold coherent. cbn. auto.
     - intros Hd. cbn. unfold coherent. cbn. auto.
   Qed.
-  Lemma sv_step_raw_verbatim t s : t_raw (fst (sv_step parse format t (SetRaw s))) = s.
-  Proof. cbn [sv_step]. destruct (parse s); reflexivity. Qed.
-  Lemma sv_step_value_kept t v : t_val (fst (sv_step parse format t (SetValue v))) = v.
+  Lemma sv_step_raw_verbatim t s v : parse s = Ok v -> t_raw (fst (sv_step parse format pf t (SetRaw s))) = s.
+  Proof. intros H. cbn [sv_step]. rewrite H. reflexivity. Qed.
+  Lemma sv_step_value_kept t v : t_val (fst (sv_step parse format pf t (SetValue v))) = v.
   Proof. reflexivity. Qed.
-  Theorem sv_history t ops : coherent t -> Forall op_ok ops -> coherent (sv_run parse format t ops).
+  Theorem sv_history t ops : coherent t -> Forall op_ok ops -> coherent (sv_run parse format pf t ops).
   Proof.
     revert t. induction ops as [|o ops IH]; intros t Ht Hops; cbn [sv_run]; [exact Ht|].
     inversion Hops; subst. apply IH; [|assumption]. apply sv_step_coherent. assumption.
@@ -586,8 +587,8 @@ Definition b_op_ok (o : b_op) : Prop :=
   | BSetValue _ => True
   | BSetIndent i => indent_codec_ok i = true
   end.
-Lemma b_step_coherent t o : b_coherent t -> b_op_ok o ->
-  b_coherent (fst (b_step SplitNl t o)) /\ snd (b_step SplitNl t o) = Ok tt.
+Lemma b_step_coherent pf t o : b_coherent t -> b_op_ok o ->
+  b_coherent (fst (b_step SplitNl pf t o)) /\ snd (b_step SplitNl pf t o) = Ok tt.
 Proof.
   intros [Hi Hp] Ho. destruct o as [s|v|i]; cbn [b_op_ok b_step] in *.
   - destruct Ho as [i [v Hs]]. rewrite Hs. cbn. split; [|reflexivity]. split; [|exact Hs].
@@ -595,7 +596,7 @@ Proof.
   - cbn. split; [|reflexivity]. split; [exact Hi|]. apply block_roundtrip. exact Hi.
   - cbn. split; [|reflexivity]. split; [exact Ho|]. apply block_roundtrip. exact Ho.
 Qed.
-Lemma b_history t ops : b_coherent t -> Forall b_op_ok ops -> b_coherent (b_run SplitNl t ops).
+Lemma b_history pf t ops : b_coherent t -> Forall b_op_ok ops -> b_coherent (b_run SplitNl pf t ops).
 Proof.
   revert t. induction ops as [|o ops IH]; intros t Ht Hops; cbn [b_run]; [exact Ht|].
   inversion Hops; subst. apply IH; [|assumption]. apply b_step_coherent; assumption.
@@ -918,8 +919,8 @@ Qed.
 (* the history statement of one single-value token class                                          *)
 Definition history_ok {V} (parse : str -> res V) (format : V -> str) (dom : V -> bool) : Prop :=
   (forall v, dom v = true -> coherent parse (sv_from_value format v)) /\
-  forall (t : tok V) (ops : list (sv_op V)),
-    coherent parse t -> Forall (op_ok parse dom) ops -> coherent parse (sv_run parse format t ops).
+  forall (pf : bool) (t : tok V) (ops : list (sv_op V)),
+    coherent parse t -> Forall (op_ok parse dom) ops -> coherent parse (sv_run parse format pf t ops).
 Lemma history_ok_of {V} (parse : str -> res V) format dom :
   (forall v, dom v = true -> parse (format v) = Ok v) -> history_ok parse format dom.
-Proof. intros H. split; [apply sv_from_value_coherent, H | apply sv_history, H]. Qed.
+Proof. intros H. split; [apply sv_from_value_coherent, H | intros pf; apply sv_history; exact H]. Qed.
